@@ -29,7 +29,7 @@ QScales == {<<<<-1, 100>>, <<1, 100>>>>,        \* an ordinary sky image
             <<<<-1, 100>>, <<1, 50>>>>,         \* not square
             <<<<-1, 100>>, Null>>,              \* no second scale (seen in noao-02274)
             <<<<1, 100>>, <<-1, 100>>>>}        \* both signs reversed: the same handedness, turned by 180 degrees
-TScales == QScales \cup {<<<<-1, 64>>, <<1, 64>>>>, <<<<-1, 100>>, <<-1, 100>>>>, <<<<-1, 96>>, <<1, 100>>>>, <<<<-3, 1000>>, <<3, 1000>>>>}
+TScales == QScales \cup {<<<<-1, 64>>, <<1, 64>>>>, <<<<-1, 100>>, <<-1, 100>>>>, <<<<-3, 1000>>, <<3, 1000>>>>}
 \* <<cos, sin>>
 QRots == {<<I(1), I(0)>>, <<I(0), I(1)>>, <<I(-1), I(0)>>, <<<<3, 5>>, <<4, 5>>>>, <<<<4, 5>>, <<-3, 5>>>>}
 TRots == QRots \cup {<<I(0), I(-1)>>, <<<<-3, 5>>, <<4, 5>>>>, <<<<5, 13>>, <<12, 13>>>>, <<<<-4, 5>>, <<-3, 5>>>>}
